@@ -938,7 +938,7 @@ func printCallgrind(w io.Writer, rpt *Report) error {
 	nodeNames := getDisambiguatedNames(g)
 
 	fmt.Fprintln(w, "positions: instr line")
-	fmt.Fprintln(w, "events:", o.SampleType+"("+o.OutputUnit+")")
+	fmt.Fprintln(w, "events:", callgrindNameReplacer.Replace(o.SampleType+"("+o.OutputUnit+")"))
 
 	objfiles := make(map[string]int)
 	files := make(map[string]int)
